@@ -248,3 +248,21 @@ Proof.
   repeat split; try assumption. exact genuine_covered.
 Qed.
 Print Assumptions C10_witness.
+
+(* GLUE to C01 (Proofs/Glue_xsw.v, docs/Glue.md).  The symbolic documents above are Model/Xmlsec.v's; C01 is proved
+   over Model/Xsw.v (signatures with their own ID / Object children, three duplicate-ID policies, Dolev-Yao closure).
+   Through the embedding [emb] the tool and the pre-check of this file are C01's (Glue_tool_verify_agrees,
+   Glue_request_precheck_is_C01_precheck in Props/Glue.v), so C01's conclusion holds for every SIGNED request handed
+   to the application: it is COVERED - its ID is non-empty and carried by no other node of the document, it has
+   exactly one Signature child, the first signature in document order, with the single reference to that ID, an
+   intact value under a certificate selected for the issuer, digesting exactly the request minus that child. *)
+From PV Require Model.Xsw Proofs.Xsw_lemmas Proofs.Glue_xsw.
+Theorem C10_signed_request_is_covered_as_in_C01 :
+  forall c k b w d,
+    parse_request true true c k b w = Ok (Some d) -> root_signed (d_tree d) = true ->
+    exists certs v X j D,
+      request_certs c d = Ok certs /\ root_id (d_tree d) = Some v /\
+      Xsw_lemmas.covered (Glue_xsw.emb (d_tree d)) (N.succ (kind_name k)) v certs [] X j D /\
+      X = Glue_xsw.emb (d_tree d).
+Proof. exact Glue_xsw.parse_request_relied_is_covered. Qed.
+Print Assumptions C10_signed_request_is_covered_as_in_C01.
